@@ -24,7 +24,7 @@ func init() {
 		Modules: []string{"v2"},
 		Explanation: "Structural rules on the v2 identify_license tool: (R19.1) every field of a library Match is copied to the same-named field of LicenseType, and from there to Classification/readFileLines, for the same element; (R19.2) the path condition under which a match is recorded is exactly `headers or MatchType != \"Header\"` (all paths enumerated, truth table compared); " +
 			"(R19.3) the shared result list is read and appended only while holding the backend mutex for writing; (R19.4) every input file spawns exactly one task with that file's name after taking a pool token, the token is returned before the task signals completion (the channel is closed after the wait), and the error channel has room for every file; " +
-			"(R19.5) every path of main that reaches the normal return with no results passes a fatal exit, and any later fatal exit is guarded by the JSON writer's error; (R19.6) the line re-reader's scanner limit is raised to at least MaxInt32, lines are counted once per Scan and accumulated exactly for startLine <= i <= endLine. " +
+			"(R19.5) every path of main that reaches the normal return with no results passes a fatal exit, and any later fatal exit is guarded by the JSON writer's error; (R19.6) the line re-reader's scanner limit is raised to at least MaxInt32, lines are counted once per Scan and accumulated exactly for startLine <= i <= endLine; (R19.7) the library is given exactly the bytes that this call read from the named file. " +
 			"Necessary conditions of 'the CLI reports what the library finds' for all file sets, flags and -tasks values; output formatting and ordering are not decided.",
 		Run: runC19,
 	})
@@ -126,6 +126,23 @@ func runC19(c *Ctx) {
 		}
 		c.R.RequireMin("R19.1", "Classification literals", n2, 1)
 	}
+
+	// ---- R19.7 the bytes matched are the bytes just read from this file ----------------
+	nM := 0
+	for _, f := range clFns {
+		for _, call := range core.CallsIn(f) {
+			cal := call.Common().StaticCallee()
+			if cal == nil || cal.Name() != "Match" || !strings.HasSuffix(core.FuncPkgPath(cal), "/v2") {
+				continue
+			}
+			nM++
+			arg := core.Unspill(call.Common().Args[1])
+			// through a closure parameter / free variable back to the ReadFile result
+			ok, why := isFileContents(arg, cl, 0)
+			c.R.Check(ok, "R19.7", "classifyLicense: Match is given exactly the bytes read from the file by this call", p.Pos(call.Pos()), why, why)
+		}
+	}
+	c.R.RequireMin("R19.7", "Match calls in classifyLicense", nM, 1)
 
 	// ---- R19.2 headers filter -------------------------------------------------------
 	checkHeadersFilter(c, p, clFns)
@@ -256,6 +273,38 @@ func checkHeadersFilter(c *Ctx, p *core.Prog, fns []*ssa.Function) {
 			c.R.Undecided("R19.2", "classifyLicense: headers filter", p.Pos(lit.alloc.Pos()), "the literal is not inside the loop over matches")
 			continue
 		}
+		// the loop over the matches may be left only from its header (all matches are looked at)
+		loopBlocks := map[*ssa.BasicBlock]bool{header: true}
+		var lw []*ssa.BasicBlock
+		for _, pr := range header.Preds {
+			if header.Dominates(pr) {
+				lw = append(lw, pr)
+			}
+		}
+		for len(lw) > 0 {
+			b := lw[len(lw)-1]
+			lw = lw[:len(lw)-1]
+			if loopBlocks[b] {
+				continue
+			}
+			loopBlocks[b] = true
+			lw = append(lw, b.Preds...)
+		}
+		early := false
+		for b := range loopBlocks {
+			if b == header {
+				continue
+			}
+			for _, sc := range b.Succs {
+				if !loopBlocks[sc] {
+					early = true
+				}
+			}
+			if _, isRet := b.Instrs[len(b.Instrs)-1].(*ssa.Return); isRet {
+				early = true
+			}
+		}
+		c.R.Check(!early, "R19.2", "classifyLicense: the loop over the library's matches looks at every match", p.Pos(lit.alloc.Pos()), "the loop is left only when the matches are exhausted", "the loop over Match(...).Matches can be left early (break/return in its body): matches listed after the one that triggers the exit are never recorded")
 		paths, ok := eng.EnumPaths(header, target, func(b *ssa.BasicBlock) bool { return !header.Dominates(b) }, 200)
 		if !ok {
 			c.R.Undecided("R19.2", "classifyLicense: headers filter", p.Pos(lit.alloc.Pos()), "too many paths")
@@ -725,4 +774,94 @@ func checkLineReader(c *Ctx, p *core.Prog) {
 		}
 	}
 	c.R.Check(okText, "R19.6", "readFileLines: the accumulated text is the scanned line plus a newline", p.Pos(acc.Pos()), "scanner.Text() followed by \"\\n\"", "the scanned line is not followed by a newline in the accumulated text")
+}
+
+// isFileContents: v is the first result of os.ReadFile/ioutil.ReadFile(filename) of classifyLicense's
+// filename parameter, possibly passed through a closure parameter or captured variable.
+func isFileContents(v ssa.Value, cl *ssa.Function, depth int) (bool, string) {
+	if depth > 4 {
+		return false, "cannot trace where the matched bytes come from"
+	}
+	v = core.Unspill(v)
+	switch x := v.(type) {
+	case *ssa.Extract:
+		if call, ok := x.Tuple.(*ssa.Call); ok && x.Index == 0 {
+			n := core.StaticCalleeName(&call.Call)
+			if n == "os.ReadFile" || n == "io/ioutil.ReadFile" {
+				if fv := core.Unspill(call.Call.Args[0]); isFilenameOf(fv, cl) {
+					return true, "contents, err := ReadFile(filename); Match(contents)"
+				}
+				return false, "the file read is not the file being classified"
+			}
+		}
+	case *ssa.Parameter:
+		// parameter of a closure/helper: every call site passes the contents
+		fn := x.Parent()
+		idx := -1
+		for i, q := range fn.Params {
+			if q == x {
+				idx = i
+			}
+		}
+		n := 0
+		for _, g := range core.WithAnon(cl) {
+			for _, call := range core.CallsIn(g) {
+				if eng.ResolveCallee(call.Common().Value) == fn && idx < len(call.Common().Args) {
+					n++
+					if ok, why := isFileContents(call.Common().Args[idx], cl, depth+1); !ok {
+						return false, why
+					}
+				}
+			}
+		}
+		if n > 0 {
+			return true, "contents, err := ReadFile(filename); passed unchanged to the matching helper"
+		}
+	case *ssa.FreeVar:
+		// captured variable: find the binding in the parent
+		f := x.Parent()
+		for i, fv := range f.FreeVars {
+			if fv != x || f.Parent() == nil {
+				continue
+			}
+			for _, b := range f.Parent().Blocks {
+				for _, in := range b.Instrs {
+					if mc, ok := in.(*ssa.MakeClosure); ok && mc.Fn == ssa.Value(f) && i < len(mc.Bindings) {
+						return isFileContents(mc.Bindings[i], cl, depth+1)
+					}
+				}
+			}
+		}
+	case *ssa.UnOp:
+		if fv, ok := x.X.(*ssa.FreeVar); ok {
+			return isFileContents(fv, cl, depth+1)
+		}
+		if al, ok := x.X.(*ssa.Alloc); ok {
+			// a captured local: its single store
+			var src ssa.Value
+			nst := 0
+			for _, r := range *al.Referrers() {
+				if st, ok := r.(*ssa.Store); ok && st.Addr == ssa.Value(al) {
+					nst++
+					src = st.Val
+				}
+			}
+			if nst == 1 {
+				return isFileContents(src, cl, depth+1)
+			}
+		}
+	case *ssa.Alloc:
+		var src ssa.Value
+		nst := 0
+		for _, r := range *x.Referrers() {
+			if st, ok := r.(*ssa.Store); ok && st.Addr == ssa.Value(x) {
+				nst++
+				src = st.Val
+			}
+		}
+		if nst == 1 {
+			return isFileContents(src, cl, depth+1)
+		}
+	}
+	return false, "the bytes handed to Match are not the result of ReadFile(filename) of this call (" + eng.Describe(v) + "): bytes from elsewhere (a reused buffer, another file) would be classified under this file's name"
 }
